@@ -60,6 +60,49 @@ class P2(Envs.PositionComponent):
     """A user-defined component type that derives from the position component the spatial worlds manage themselves."""
 
 
+class F(Core.Component):
+    """A container-like component: falsy while it holds nothing."""
+
+    def __len__(self):
+        return 0
+
+
+def handover_case(case):
+    """An environment built for one model is handed over to another (set_model + set_environment): from then on its
+    agents' components are listed by the new model only."""
+    from mc.engine.seams import reset_library
+    reset_library()
+    ma, mb = Core.Model(seed=1), Core.Model(seed=2)
+    mk, pos = KINDS[case['kind']]
+    env = mk(ma) if mk is not None else Core.Environment(ma)
+    ma.set_environment(env)
+    first = Core.Agent('early', ma)
+    cx0 = X(first, ma)
+    first.add_component(cx0)
+    if case['early_join']:
+        env.add_agent(first, *pos)
+        if ma.systems[X] != [cx0] or mb.systems[X] is not None:
+            raise Violation('before the handover: listing differs')
+        env.remove_agent('early')
+    env.set_model(mb)
+    mb.set_environment(env)
+    a = Core.Agent('late', mb)
+    cx, cy = X(a, mb), Y(a, mb)
+    a.add_component(cx)
+    a.add_component(cy)
+    env.add_agent(a, *pos)
+    if mb.systems[X] != [cx] or mb.systems[Y] != [cy]:
+        raise Violation('after an environment was handed over to another model, the new model does not list the '
+                        'components of agents joining it', expected=['late.X'], observed=repr(mb.systems[X]))
+    if ma.systems[X] is not None or ma.systems[Y] is not None:
+        raise Violation('after the handover the OLD model lists components of agents that joined the new model\'s '
+                        'environment', expected=None, observed=repr(ma.systems[X]))
+    env.remove_agent('late')
+    if mb.systems[X] is not None or mb.systems[Y] is not None:
+        raise Violation('after the agent left, the new model still lists its components')
+    return 4
+
+
 def scale_case(case):
     """E2 leg: a population of n agents (components X on all, Y on odd ones, the user type P2 on every third) joins a
     world; chosen victims leave and re-join; optionally the model is marked complete at a chosen point.  After every
@@ -72,11 +115,11 @@ def scale_case(case):
     if mk is not None:
         m.environment = mk(m)
     env = m.environment
-    types = {'X': X, 'Y': Y, 'P2': P2}
+    types = {'X': X, 'Y': Y, 'P2': P2, 'F': F}
     agents, comps = [], {}
     for i in range(n):
         a = Core.Agent(f'g{i}', m)
-        for T in ('X',) + (('Y',) if i % 2 else ()) + (('P2',) if i % 3 == 0 else ()):
+        for T in ('X',) + (('Y',) if i % 2 else ()) + (('P2',) if i % 3 == 0 else ()) + (('F',) if i % 4 == 1 else ()):
             c = types[T](a, m)
             a.add_component(c)
             comps[id(c)] = (i, T)
@@ -86,7 +129,8 @@ def scale_case(case):
     def check(what):
         for T, cls in types.items():
             got = m.systems[cls]
-            exp = [(i, T) for i in res if (T == 'X') or (T == 'Y' and i % 2) or (T == 'P2' and i % 3 == 0)]
+            exp = [(i, T) for i in res if (T == 'X') or (T == 'Y' and i % 2) or (T == 'P2' and i % 3 == 0) or
+                   (T == 'F' and i % 4 == 1)]
             got_n = None if got is None else [comps.get(id(c), ('?', type(c).__name__)) for c in got]
             if got_n != (exp or None):
                 raise Violation(f'{what}: listing of {T} differs from the residents\' components in joining order '
@@ -518,6 +562,15 @@ def run(ctx):
         except Violation as v:
             ctx.report({k: (list(x) if isinstance(x, tuple) else x) for k, x in case.items()}, v)
             return
+    for kind in (('plain', 'grid', 'line') if ctx.tier == 'quick' else tuple(KINDS)):
+        for early in (False, True):
+            case = {'leg': 'handover', 'kind': kind, 'early_join': early}
+            ctx.traces += 1
+            try:
+                ctx.transitions += hbfs._guard(handover_case, case)
+            except Violation as v:
+                ctx.report(case, v)
+                return
     ctx.leg('population', note='5 and 40 agents with X / Y / user subclass of PositionComponent; victims leave and '
                                're-join; model marked complete before a join or a leave')
     if ctx.tier == 'quick':
@@ -552,6 +605,9 @@ def run(ctx):
 
 
 def replay(case):
+    if case['leg'] == 'handover':
+        hbfs._guard(handover_case, case)
+        return
     if case['leg'] == 'population':
         c = dict(case)
         if c.get('complete_at') is not None:
